@@ -58,12 +58,15 @@ Definition veq_map_go (mb : list (str * value)) : list (str * value) -> res bool
   fix go (ma : list (str * value)) : res bool :=
   match ma with
   | (k, v) :: ma' =>
-      match assoc_v k mb with
-      | Some o => match veq v o with Ok true => go ma' | r => r end
-      | None => Ok false
-      end
+      worse (match assoc_v k mb with
+             | Some o => veq v o
+             | None => Ok false
+             end) (go ma')
   | [] => Ok true
   end.
+
+Lemma worse_np : forall r1 r2, r1 <> Panic -> r2 <> Panic -> worse r1 r2 <> Panic.
+Proof. intros [[|]| | | |] [[|]| | | |]; cbn; congruence. Qed.
 
 Lemma veq_list_unfold : forall la lb,
   veq (VList la) (VList lb) = if negb (Nat.eqb (length la) (length lb)) then Ok false else veq_list_go la lb.
@@ -85,9 +88,9 @@ Proof.
   - destruct b as [| | | | |mb| |]; try apply (eq_scalar_np (VMap m)).
     rewrite veq_map_unfold. destruct (negb _); [discriminate|].
     induction IH as [|[k v] r Hx Hr IHr]; simpl; [discriminate|].
-    fold (veq_map_go mb).
+    fold (veq_map_go mb). apply worse_np; [|exact IHr].
     destruct (assoc_v k mb) as [o|]; [|discriminate].
-    simpl in Hx. specialize (Hx o). destruct (veq v o) as [[|]| | | |]; try discriminate; try congruence; try apply IHr.
+    simpl in Hx. exact (Hx o).
 Qed.
 
 Lemma equal_fg_np : forall a b, equal_fg a b <> Panic.
@@ -143,7 +146,7 @@ Proof.
   destruct (str_eqb op op_ne). { pose proof (veq_np a b). destruct (veq a b); try discriminate; congruence. }
   destruct (str_eqb op op_in).
   { destruct b; destruct a; try discriminate;
-      first [apply rbool_np, contains_all_np | apply rbool_np, contains_item_np | np]. }
+      first [apply rbool_np; unfold contains_all_repr; destruct (_ && _); [discriminate|apply contains_all_np] | apply rbool_np, contains_item_np | np]. }
   destruct (str_eqb op op_lt). { apply rbool_np, vless_np. }
   destruct (str_eqb op op_gt). { apply rbool_np, vless_np. }
   destruct (str_eqb op op_le).
